@@ -1,3 +1,180 @@
 package main
 
-func doSelfTest(o *opts) map[string]any { return map[string]any{"ok": false} }
+import (
+	"encoding/json"
+	"fmt"
+	"os"
+	"path/filepath"
+	"strings"
+)
+
+// A mutant is a deliberate C12-breaking edit of one naga file, applied as an
+// overlay replacement (the tree itself is never touched), together with the
+// c12x run that must report it and the run that must not (the same command on
+// the unmodified tree).
+type mutant struct {
+	Name   string
+	What   string
+	File   string // relative to the naga tree
+	Old    string // must occur exactly once
+	New    string
+	Sub    string   // c12x subcommand
+	Args   []string // extra arguments
+	Expect []string // substrings that one violation key must all contain
+}
+
+var mutants = []mutant{
+	{
+		Name: "a-glsl-unsorted-map-walk",
+		What: "GLSL writer: the sort of a texture's combined-sampler pairs, collected by a map walk, is removed",
+		File: "glsl/internal/codegen/writer.go",
+		Old:  "	for _, infos := range textureToCombined {\n		if len(infos) > 1 {",
+		New:  "	for _, infos := range textureToCombined {\n		if false && len(infos) > 1 {",
+		Sub:  "maporder", Args: []string{"--only", "own/d2_vsfs.wgsl"},
+		Expect: []string{"map order changes output: glsl: own/d2_vsfs.wgsl", "glsl/internal/codegen/writer.go"},
+	},
+	{
+		Name: "b-hlsl-package-scope-name-cache",
+		What: "HLSL namer: the per-writer map of used names is hoisted to package scope, so all compilations share it",
+		File: "hlsl/internal/codegen/namer.go",
+		Old:  "		unique:                  make(map[string]int),",
+		New:  "		unique:                  verifMutantSharedUnique,",
+		Sub:  "interleave", Args: []string{"--only", "H1|own/d1_mix.wgsl|hlsl"},
+		Expect: []string{"hlsl writes package-level state", "verifMutantSharedUnique"},
+	},
+	{
+		Name: "b-hlsl-package-scope-name-cache-race",
+		What: "same mutant, free-running under the race detector",
+		File: "hlsl/internal/codegen/namer.go",
+		Old:  "		unique:                  make(map[string]int),",
+		New:  "		unique:                  verifMutantSharedUnique,",
+		Sub:  "race", Args: []string{"--only", "H1|own/d1_mix.wgsl|hlsl", "--reps", "10"},
+		Expect: []string{"hlsl/internal/codegen.(*namer)"},
+	},
+	{
+		Name: "c-hlsl-write-then-restore",
+		What: "HLSL backend: renames the shared module's first entry point while it writes and restores the name afterwards",
+		File: "hlsl/internal/codegen/backend.go",
+		Old:  "	if err := w.writeModule(); err != nil {",
+		New: "	var verifMutantSaved string\n	if len(module.EntryPoints) > 0 {\n		verifMutantSaved = module.EntryPoints[0].Name\n		module.EntryPoints[0].Name = verifMutantSaved + \"_tmp\"\n	}\n" +
+			"	err := w.writeModule()\n	if len(module.EntryPoints) > 0 {\n		module.EntryPoints[0].Name = verifMutantSaved\n	}\n	if err != nil {",
+		Sub: "interleave", Args: []string{"--only", "H2|own/d1_mix.wgsl|hlsl,msl,glsl"},
+		Expect: []string{"hlsl writes then restores shared module", "EntryPoints[0].Name"},
+	},
+}
+
+// appendix is added to the end of a mutated file (declarations the edit needs).
+var appendix = map[string]string{
+	"b-hlsl-package-scope-name-cache":      "\nvar verifMutantSharedUnique = make(map[string]int)\n",
+	"b-hlsl-package-scope-name-cache-race": "\nvar verifMutantSharedUnique = make(map[string]int)\n",
+}
+
+type selfResult struct {
+	Name          string   `json:"name"`
+	What          string   `json:"what"`
+	Command       string   `json:"command"`
+	Applicable    bool     `json:"applicable"`
+	Detected      bool     `json:"detected"`
+	MatchedKey    string   `json:"matched_key,omitempty"`
+	CleanOnBase   bool     `json:"absent_on_unmodified_tree"`
+	MutantKeys    []string `json:"violation_keys_with_mutant"`
+	Error         string   `json:"error,omitempty"`
+	MutantOverlay string   `json:"overlay,omitempty"`
+}
+
+func matchKey(keys []string, expect []string) string {
+	for _, k := range keys {
+		ok := true
+		for _, e := range expect {
+			if !strings.Contains(k, e) {
+				ok = false
+			}
+		}
+		if ok {
+			return k
+		}
+	}
+	return ""
+}
+
+func runSelf(o *opts, sub string, args []string) ([]string, error) {
+	self, err := os.Executable()
+	if err != nil {
+		return nil, err
+	}
+	full := append([]string{sub, "--tier", "quick", "--repo", o.repo, "--root", o.root, "--procs", fmt.Sprint(o.procs)}, args...)
+	so, se, err := run(o.root, os.Environ(), self, full...)
+	if err != nil {
+		return nil, fmt.Errorf("%v: %.1500s", err, se)
+	}
+	var r struct {
+		Violations []violation `json:"violations"`
+	}
+	if err := json.Unmarshal(so, &r); err != nil {
+		return nil, err
+	}
+	var keys []string
+	for _, v := range r.Violations {
+		keys = append(keys, v.Key)
+	}
+	return keys, nil
+}
+
+// doSelfTest applies each mutant through an overlay and checks that the
+// corresponding exploration reports it, and does not report it without the mutant.
+func doSelfTest(o *opts) map[string]any {
+	var results []selfResult
+	all := true
+	for _, m := range mutants {
+		if o.only != "" && !strings.Contains(m.Name, o.only) {
+			continue
+		}
+		r := selfResult{Name: m.Name, What: m.What, Command: "c12x " + m.Sub + " " + strings.Join(m.Args, " ")}
+		orig := filepath.Join(o.repo, m.File)
+		src, err := os.ReadFile(orig)
+		if err != nil || strings.Count(string(src), m.Old) != 1 {
+			r.Error = fmt.Sprintf("mutant does not apply to the current tree (%s: anchor text found %d times)", m.File, strings.Count(string(src), m.Old))
+			results = append(results, r)
+			all = false
+			continue
+		}
+		r.Applicable = true
+		dir := filepath.Join(o.root, ".cache/c12mut", m.Name)
+		os.RemoveAll(dir)
+		if err := os.MkdirAll(dir, 0o755); err != nil {
+			fatal(err)
+		}
+		patched := filepath.Join(dir, filepath.Base(m.File))
+		if err := os.WriteFile(patched, []byte(strings.Replace(string(src), m.Old, m.New, 1)+appendix[m.Name]), 0o644); err != nil {
+			fatal(err)
+		}
+		ov := filepath.Join(dir, "overlay.json")
+		b, _ := json.Marshal(map[string]any{"Replace": map[string]string{orig: patched}})
+		if err := os.WriteFile(ov, b, 0o644); err != nil {
+			fatal(err)
+		}
+		r.MutantOverlay = ov
+		args := append([]string{"--replays", filepath.Join(dir, "replays")}, m.Args...)
+		keys, err := runSelf(o, m.Sub, append([]string{"--base-overlay", ov}, args...))
+		if err != nil {
+			r.Error = "with mutant: " + err.Error()
+			results = append(results, r)
+			all = false
+			continue
+		}
+		r.MutantKeys = keys
+		r.MatchedKey = matchKey(keys, m.Expect)
+		r.Detected = r.MatchedKey != ""
+		baseKeys, err := runSelf(o, m.Sub, args)
+		if err != nil {
+			r.Error = "without mutant: " + err.Error()
+		} else {
+			r.CleanOnBase = matchKey(baseKeys, m.Expect) == ""
+		}
+		if !r.Detected || !r.CleanOnBase {
+			all = false
+		}
+		results = append(results, r)
+	}
+	return map[string]any{"ok": all, "violations": []violation{}, "mutants": results}
+}
